@@ -777,6 +777,11 @@ type ExtractOptions struct {
 	ExcludeHeaders  bool // Exclude headers (not applicable for HTML)
 	ExcludeFooters  bool // Exclude footers (not applicable for HTML)
 
+	// HeadingLevelOffset shifts Markdown heading levels (1 makes H1 -> H2)
+	HeadingLevelOffset int
+	// MaxHeadingLevel caps Markdown heading depth (0 = no cap below 6)
+	MaxHeadingLevel int
+
 	// NavigationExclusion controls filtering of navigation, headers, footers, and sidebars.
 	// Default: NavigationExclusionStandard (filters semantic elements and common class/id patterns)
 	NavigationExclusion NavigationExclusionMode
@@ -868,6 +873,22 @@ func (r *Reader) Markdown() (string, error) {
 	return r.MarkdownWithOptions(DefaultExtractOptions())
 }
 
+// markdownHeadingLevel returns the ATX level for a source heading level: shifted
+// by the configured offset, capped at the configured maximum, within 1..6.
+func markdownHeadingLevel(level int, opts ExtractOptions) int {
+	level += opts.HeadingLevelOffset
+	if opts.MaxHeadingLevel > 0 && level > opts.MaxHeadingLevel {
+		level = opts.MaxHeadingLevel
+	}
+	if level < 1 {
+		level = 1
+	}
+	if level > 6 {
+		level = 6
+	}
+	return level
+}
+
 // MarkdownWithOptions returns HTML content as Markdown with options.
 func (r *Reader) MarkdownWithOptions(opts ExtractOptions) (string, error) {
 	var result strings.Builder
@@ -879,7 +900,7 @@ func (r *Reader) MarkdownWithOptions(opts ExtractOptions) (string, error) {
 			if result.Len() > 0 {
 				result.WriteString("\n\n")
 			}
-			for i := 0; i < elem.Level; i++ {
+			for i := 0; i < markdownHeadingLevel(elem.Level, opts); i++ {
 				result.WriteString("#")
 			}
 			result.WriteString(" ")
@@ -990,6 +1011,8 @@ func (r *Reader) MarkdownWithRAGOptions(extractOpts ExtractOptions, mdOpts rag.M
 	}
 
 	// Generate main content
+	extractOpts.HeadingLevelOffset = mdOpts.HeadingLevelOffset
+	extractOpts.MaxHeadingLevel = mdOpts.MaxHeadingLevel
 	md, err := r.MarkdownWithOptions(extractOpts)
 	if err != nil {
 		return "", err
